@@ -3,7 +3,7 @@ import FV.C05C06
 namespace FV
 
 /-- outcome of one `pipe.read(vacant)` call -/
-inductive ReadEv | deliver (n : Nat) | fail
+inductive ReadEv | deliver (n : Nat) | fail (k : Nat)
 deriving Repr, DecidableEq
 
 /-- `Buffer`: `start` bytes precede the occupied bytes `occ`; `base` is the (aligned) address of index 0 -/
@@ -16,18 +16,18 @@ deriving Repr
 
 def RBuf.slice (b : RBuf) : Slice := ⟨b.base + b.start, b.occ⟩
 
-inductive RecvOut | msg (bytes : Bytes) | parse (e : Err) | readErr | oom | closed | blocked | fault
+inductive RecvOut | msg (bytes : Bytes) | parse (e : Err) | readErr (k : Nat) | oom | closed | blocked | fault
 deriving Repr, DecidableEq
 
 /-- `ReadBuffer::read`: compaction / OutOfMemory, then one pipe call -/
-inductive ReadRes | got (b : RBuf) (rest : Bytes) (n : Nat) | err (b : RBuf) | oom
+inductive ReadRes | got (b : RBuf) (rest : Bytes) (n : Nat) | err (b : RBuf) (k : Nat) | oom
 
 def readStep (b : RBuf) (ev : ReadEv) (rest : Bytes) : ReadRes :=
   if b.start + b.occ.length = b.cap ∧ b.start = 0 then .oom
   else
     let b1 := if b.start + b.occ.length = b.cap then { b with start := 0 } else b
     match ev with
-    | .fail => .err b1
+    | .fail k => .err b1 k
     | .deliver c =>
       let n := min (min c (b1.cap - (b1.start + b1.occ.length))) rest.length
       .got { b1 with occ := b1.occ ++ rest.take n } (rest.drop n) n
@@ -45,7 +45,7 @@ def recv (d : Dict) : List ReadEv → RBuf → Bytes → RecvOut × RBuf × Byte
         | ev :: evs' =>
           match readStep b ev rest with
           | .oom => (.oom, b, rest, ev :: evs')   -- the pipe is not called
-          | .err b1 => (.readErr, b1, rest, evs')
+          | .err b1 k => (.readErr k, b1, rest, evs')
           | .got b1 rest1 n => if n = 0 then (.closed, b1, rest1, evs') else recv d evs' b1 rest1
 
 /-- dropping the guard: `skip(size())`, with `Buffer::skip`'s assertion as a fault -/
